@@ -384,7 +384,9 @@ impl Drop for TlPut { fn drop(&mut self) { self.h.clear(); self.pool.clear_cache
 // ---------------- SecureMemoryPool ----------------
 struct SecPut { h: HashMap<u64, SecurePooledPtr>, pool: Arc<SecureMemoryPool>, chunk: usize, align: usize, bulk: bool,
                 // model comparison: chunk data address -> serial, observation of the current op, of all ops
-                serials: HashMap<usize, u64>, pending: Vec<Option<i64>>, rec: Vec<Vec<Option<i64>>> }
+                serials: HashMap<usize, u64>, pending: Vec<Option<i64>>, rec: Vec<Vec<Option<i64>>>,
+                // a copy of the record of the chunk given back by the most recent guard drop (for the double-free op)
+                stale: Option<(usize, zipora::memory::secure_pool::SecureChunk)> }
 impl SecPut {
     fn serial(&mut self, addr: usize) -> i64 { let n = self.serials.len() as u64; *self.serials.entry(addr).or_insert(n) as i64 }
     fn known(&self, addr: usize) -> i64 { self.serials.get(&addr).map(|&v| v as i64).unwrap_or(-1) }
@@ -417,10 +419,24 @@ impl Put for SecPut {
         Some(blk)
     }
     fn free(&mut self, id: u64) -> bool {
-        self.h.remove(&id);
+        if let Some(g) = self.h.remove(&id) {
+            self.stale = SecureMemoryPool::verif_chunk_copy(&g).map(|c| (g.as_ptr() as usize, c));
+            drop(g);
+        }
         self.pending = vec![Some(0)];
         self.pending.extend(self.dump());
         true
+    }
+    /// a second free of the chunk the most recent guard drop gave back (while it has not been handed out again):
+    /// deallocate_internal must report it; Some(accepted)
+    fn foreign(&mut self, _kind: u64, _size: usize, _first: Option<usize>, _lowest: Option<usize>) -> Option<bool> {
+        let live_again = match &self.stale { Some((a, _)) => self.h.values().any(|g| g.as_ptr() as usize == *a), None => return None };
+        if live_again { return None; }
+        let (_, copy) = self.stale.take().unwrap();
+        let acc = self.pool.verif_deallocate(copy).is_ok();
+        self.pending = vec![if acc { Some(0) } else { None }];
+        self.pending.extend(self.dump());
+        Some(acc)
     }
     fn cfg_align(&self) -> usize { self.align }
     fn effective(&self, _size: usize) -> usize { self.chunk }
@@ -784,12 +800,12 @@ fn run_case(cx: &mut Ctx, c: &Value, force: bool) {
                 _ => SecurePoolConfig::new(u(c, "chunk") as usize, u(c, "maxchunks") as usize, u(c, "align") as usize).with_local_cache_size(u(c, "lcache") as usize).with_zero_on_alloc(u(c, "flags") & 1 != 0) };
             let (chunk, align, lcache) = (cfg.chunk_size, cfg.alignment, cfg.local_cache_size);
             let pool = match guarded(|| SecureMemoryPool::new(cfg)) { Ok(Ok(p)) => p, _ => { cx.sum.dist("pool_new_refused"); return; } };
-            let mut put = SecPut { h: HashMap::new(), pool: pool.clone(), chunk, align, bulk: u(c, "flags") & 2 != 0, serials: HashMap::new(), pending: vec![], rec: vec![] };
+            let mut put = SecPut { h: HashMap::new(), pool: pool.clone(), chunk, align, bulk: u(c, "flags") & 2 != 0, serials: HashMap::new(), pending: vec![], rec: vec![], stale: None };
             if drive(cx, cell, c, &mut put, &ops).is_some() {
                 if put.rec.len() == ops.len() && cx.room("secure", force) {
                     let mut cops = vec![]; let mut exp: Vec<String> = vec![];
                     for (o, r) in ops.iter().zip(put.rec.iter()) {
-                        match o[0] { 0 => cops.push("SAl".to_string()), 1 => cops.push(format!("SFr {}", o[1])), _ => continue }
+                        match o[0] { 0 => cops.push("SAl".to_string()), 1 => cops.push(format!("SFr {}", o[1])), 2 => cops.push("SDbl".to_string()), _ => continue }
                         for x in r { exp.push(coq_oz(&x.map(|v| v as i128))); }
                     }
                     cx.shards.push(format!("XSec {} [{}] [{}]", lcache, cops.join("; "), exp.join("; ")), c.clone());
@@ -981,8 +997,16 @@ fn gen_case(r: &mut Rng, which: u64, bins: &[u64]) -> Value {
         5 => { // secure pool
             let preset = *r.pick(&[0u64, 0, 1, 2, 3]);
             let n = if preset == 3 { r.range(2, 8) } else { r.range(3, 60) };
+            // op 2 = a second free of the chunk the previous guard drop gave back (through the verification hook)
+            let mut ops: Vec<Vec<u64>> = vec![];
+            for mut o in gen_ops(r, n, &[8], 8, false, true, &[1]) {
+                if o[0] == 2 { o[1] = 0; }
+                let was_free = o[0] == 1;
+                ops.push(o);
+                if was_free && r.chance(1, 4) { ops.push(vec![2, 0, 8]); }
+            }
             json!({"cell": "secure", "preset": preset, "chunk": *r.pick(&[1u64, 8, 24, 100, 1024, 4096]), "maxchunks": *r.pick(&[1u64, 4, 100]), "align": *r.pick(&[1u64, 8, 16, 32, 64, 4096]),
-                   "lcache": *r.pick(&[0u64, 1, 2, 64]), "flags": r.below(4), "ops": gen_ops(r, n, &[8], 8, false, false, &[1])})
+                   "lcache": *r.pick(&[0u64, 1, 2, 64]), "flags": r.below(4), "ops": ops})
         }
         6 => { // basic pool + pooled containers
             let mode = *r.pick(&[0u64, 0, 1, 1, 2]);
